@@ -121,6 +121,11 @@ def gen_cases(rng, tier):
         cls, enc = CFGS[i % 4]
         p = gen_explicit_tail(rng, cls, enc)
         yield {"id": f"xt{i}", "lines": to_lines(p) + ["save"], "meta": {"prog": jsonable(p)}}
+    # a thread-local data section among a PT_LOAD's members, with / without a nested PT_TLS (gen_program never sets SHF_TLS)
+    for i in range(8 if tier == "quick" else 80):
+        cls, enc = CFGS[i % 4]
+        p = gen_tls_program(rng, cls, enc, tls_seg=(i // 4) % 2 == 0)
+        yield {"id": f"tls{i}", "lines": to_lines(p) + ["save"], "meta": {"prog": jsonable(p)}}
 
 
 def jsonable(p):
